@@ -202,39 +202,56 @@ func checkC14(w *World, r *Report) {
 		ig := w.Method("compile", "Compiler", "IgnoreNode")
 		fd, _ := w.FuncDecl(ig)
 		ns, loop, last := false, false, false
-		for i, s := range fd.Body.List {
-			switch x := s.(type) {
-			case *ast.IfStmt:
-				if ce, ok := ast.Unparen(x.Cond).(*ast.CallExpr); ok {
-					if c := calleeOf(p, ce); c != nil && nm(c) == "NotSupported" {
-						if rets := returnsIn(x.Body); len(rets) == 1 {
-							if v := ConstOf(p, rets[0].Results[0]); v != nil && constant.BoolVal(v) {
-								ns = true
-							}
-						}
+		if f := w.SSAFunc(ig); f != nil {
+			sym := NewSym(w)
+			sym.Expand = false
+			cif := w.Method("compile", "Compiler", "CheckIfFeature")
+			classify := func(a *pcAtom) string {
+				if c, ok := a.v.(*ssa.Call); ok {
+					if c.Call.IsInvoke() && c.Call.Method.Name() == "NotSupported" {
+						return "ns"
+					}
+					if sc := c.Call.StaticCallee(); sc != nil && sc.Object() == types.Object(cif) {
+						return "feat"
 					}
 				}
-			case *ast.RangeStmt:
-				ast.Inspect(x.Body, func(y ast.Node) bool {
-					if is, ok := y.(*ast.IfStmt); ok {
-						if u, ok := ast.Unparen(is.Cond).(*ast.UnaryExpr); ok && u.Op == token.NOT {
-							if ce, ok := ast.Unparen(u.X).(*ast.CallExpr); ok && calleeOf(p, ce) == w.Method("compile", "Compiler", "CheckIfFeature") {
-								if rets := returnsIn(is.Body); len(rets) == 1 {
-									if v := ConstOf(p, rets[0].Results[0]); v != nil && constant.BoolVal(v) {
-										loop = true
-									}
-								}
-							}
-						}
+				if a.op == token.LSS && a.x != nil && isRangeIndex(a.x) {
+					return "iter"
+				}
+				return ""
+			}
+			loops := ssaLoops(f)
+			if len(loops) == 1 {
+				l := loops[0]
+				early, inLoop, after := pcZ, pcZ, pcZ
+				valsOK := true
+				for _, b := range f.Blocks {
+					ret, ok := b.Instrs[len(b.Instrs)-1].(*ssa.Return)
+					if !ok || len(ret.Results) != 1 {
+						continue
 					}
-					return true
-				})
-			case *ast.ReturnStmt:
-				if i == len(fd.Body.List)-1 {
-					if v := ConstOf(p, x.Results[0]); v != nil && !constant.BoolVal(v) {
-						last = true
+					k, isK := ret.Results[0].(*ssa.Const)
+					if !isK || k.Value == nil {
+						valsOK = false
+						continue
+					}
+					tv := k.Value.ExactString() == "true"
+					switch {
+					case !l.Header.Dominates(b):
+						early = pcOrF(early, sym.PathCond(f.Blocks[0], b, nil))
+						valsOK = valsOK && tv
+					case l.body()[b] || reachesLatchFree(b, l):
+						inLoop = pcOrF(inLoop, sym.PathCond(l.Header, b, nil))
+						valsOK = valsOK && tv
+					default:
+						after = pcOrF(after, sym.PathCond(l.Header, b, nil))
+						valsOK = valsOK && !tv
 					}
 				}
+				ns = valsOK && pcCompare(early, classify, func(env map[string]bool) bool { return env["ns"] }) == "" &&
+					pcCompare(sym.PathCond(f.Blocks[0], l.Header, nil), classify, func(env map[string]bool) bool { return !env["ns"] }) == ""
+				loop = valsOK && pcCompare(inLoop, classify, func(env map[string]bool) bool { return env["iter"] && !env["feat"] }) == ""
+				last = valsOK && pcCompare(after, classify, func(env map[string]bool) bool { return !env["iter"] }) == ""
 			}
 		}
 		r.Check(ns && loop && last, "R14.4", "IgnoreNode", fd.Pos(), "not-supported ⇒ ignored; any false if-feature ⇒ ignored; else present", "node presence is no longer 'not deviated away and every if-feature enabled'")
